@@ -19,6 +19,7 @@ import (
 	"testing"
 
 	"github.com/tailscale/setec/audit"
+	"github.com/tailscale/setec/client/setec"
 	"github.com/tailscale/setec/db"
 	"github.com/tink-crypto/tink-go/v2/aead"
 	"github.com/tink-crypto/tink-go/v2/keyset"
@@ -106,8 +107,10 @@ func TestC05(t *testing.T) {
 	if r.Only < 0 {
 		tamper(t, r, tmp)
 		crashTemporaries(t, r, tmp)
+		longLivedHandle(t, r, tmp)
+		clientCacheModes(t, r, tmp)
 	}
-	r.Require("files_scanned", "scans_after_operation", "kek_checks", "kek_checks_after_reopen", "bit_flips", "truncations", "splices", "foreign_key_opens", "tampered_opens_rejected", "crash_point_scans", "temporaries_scanned", "mode_checks", "kek_checks_after_failed_write")
+	r.Require("files_scanned", "scans_after_operation", "kek_checks", "kek_checks_after_reopen", "bit_flips", "truncations", "splices", "foreign_key_opens", "tampered_opens_rejected", "crash_point_scans", "temporaries_scanned", "mode_checks", "kek_checks_after_failed_write", "kek_checks_long_lived_handle", "client_cache_mode_checks")
 	r.Rule("histories of 15-25 operations with marker names and values on a state directory holding the database and a real audit log, every file scanned after every operation, KEK call counter read after every operation (also after a reopen); tamper loop on saved files: every single-bit flip, every truncation length, version-field edits, DEK/DB splices between databases under the same and under a different KEK, foreign KEKs; crash points of a save scanned for plaintext in temporaries. Distinct = (operation kind, file kind) for scans and (tamper kind, outcome)")
 }
 
@@ -470,5 +473,69 @@ func crashTemporaries(t *testing.T, r *evid.Run, tmp string) {
 				}
 			}
 		}
+	}
+}
+
+// longLivedHandle: a server that stays up for thousands of writes still never needs the key service.
+func longLivedHandle(t *testing.T, r *evid.Run, tmp string) {
+	dir := filepath.Join(tmp, "longlived")
+	os.MkdirAll(dir, 0o700)
+	kek := newKEK(t)
+	d, err := realdb.Open(filepath.Join(dir, "db"), kek)
+	if err != nil {
+		t.Fatal(err)
+	}
+	after := kek.calls()
+	su := realdb.Super()
+	n := r.N(2500, 12000)
+	for i := 0; i < n; i++ {
+		switch i % 5 {
+		case 0, 1, 2:
+			d.Put(su, fmt.Sprintf("k%d", i%7), []byte(fmt.Sprintf("v%d", i)))
+		case 3:
+			d.Activate(su, fmt.Sprintf("k%d", i%7), 1)
+		case 4:
+			d.Delete(su, fmt.Sprintf("k%d", (i+3)%7))
+		}
+		r.Count("kek_checks_long_lived_handle", 1)
+		if c := kek.calls(); c != after {
+			r.Violation("kek-used-after-open", -1, fmt.Sprintf("write #%d on a database handle that has been open since creation made %d call(s) to the key-encryption key", i+1, c-after), nil)
+			return
+		}
+	}
+	r.Eval(1)
+	r.Distinct("long-lived handle")
+}
+
+// clientCacheModes: the client's file cache holds secret values by design; whatever was at its path before,
+// after a write it is readable by the owner only (the harness runs with umask 0).
+func clientCacheModes(t *testing.T, r *evid.Run, tmp string) {
+	for _, pre := range []os.FileMode{0, 0o600, 0o644, 0o640, 0o666} {
+		dir := filepath.Join(tmp, fmt.Sprintf("ccache-%o", pre), "nested")
+		p := filepath.Join(dir, "cache.json")
+		fc, err := setec.NewFileCache(p)
+		if err != nil {
+			t.Fatal(err)
+		}
+		if pre != 0 {
+			os.WriteFile(p, []byte("{}"), pre)
+			os.Chmod(p, pre)
+		}
+		for k := 0; k < 2; k++ {
+			r.Eval(1)
+			if err := fc.Write([]byte(fmt.Sprintf(`{"s":{"secret":{"Value":"c2VjcmV0","Version":%d},"lastAccess":"0"}}`, k+1))); err != nil {
+				r.Violation("client-cache-write", -1, err.Error(), nil)
+				continue
+			}
+			st, err := os.Stat(p)
+			r.Count("client_cache_mode_checks", 1)
+			if err != nil || st.Mode().Perm()&0o077 != 0 {
+				r.Violation("mode-client-cache", -1, fmt.Sprintf("the client cache file (pre-existing with mode %o) has mode %o after a write: readable by others", pre, st.Mode().Perm()), nil)
+			}
+		}
+		if st, err := os.Stat(dir); err == nil && st.Mode().Perm()&0o077 != 0 {
+			r.Violation("mode-client-cache-dir", -1, fmt.Sprintf("the cache directory was created with mode %o", st.Mode().Perm()), nil)
+		}
+		r.Distinct(fmt.Sprintf("client cache pre-existing mode %o", pre))
 	}
 }
